@@ -119,9 +119,35 @@ def to_arrays(spec):
                 observations=obs, observation_mask=mask, control_treatment_name=spec["control"])
 
 
+def add_space_extra(rnd, spec, k=None):
+    """The screen is one part of a larger experiment space: its id mappings also list k samples and k treatments that
+    occur in none of its rows, named so that they sort BETWEEN the present ones -- the ids of the present samples /
+    treatments are then not contiguous (what training and hold-out parts of a split, or a prospective screen, look like)."""
+    k = k if k is not None else rnd.choice([1, 1, 2, 3])
+    ctl = spec["control"]
+    samples = sorted({r[0] for r in spec["rows"]})
+    treats = sorted({(t[0], t[1]) for r in spec["rows"] for t in r[1] if t[0] != ctl and t[1] > 0})
+    xs = [s + "_x" for s in rnd.sample(samples, min(k, len(samples)))]
+    xt = [[t[0] + "_x", 1.0] for t in rnd.sample(treats, min(k, len(treats)))] if treats else []
+    spec["space_extra"] = dict(samples=[x for x in xs if x not in samples], treatments=[t for t in xt if t[0] != ctl])
+    return spec
+
+
 def make_screen(spec, **extra):
     from batchie.data import Screen
 
+    sx = spec.get("space_extra")
+    if sx and (sx["samples"] or sx["treatments"]) and "treatment_mapping" not in extra and "sample_mapping" not in extra:
+        base = {k: v for k, v in spec.items() if k != "space_extra"}
+        r0 = base["rows"][0]
+        some_t = [list(t) for t in r0[1]]
+        more = []
+        for i in range(max(len(sx["samples"]), len(sx["treatments"]))):
+            smp = sx["samples"][i] if i < len(sx["samples"]) else r0[0]
+            tr = [list(sx["treatments"][i])] * base["arity"] if i < len(sx["treatments"]) else some_t
+            more.append([smp, tr, 0.5, r0[3], r0[4]])
+        whole = make_screen(dict(base, rows=list(base["rows"]) + more))
+        return make_screen(base, treatment_mapping=whole.treatment_mapping, sample_mapping=whole.sample_mapping, **extra)
     a = to_arrays(spec)
     # memory layout is not part of a screen's value: a caller may hand in Fortran-ordered tables
     # (np.vstack(cols).T, DataFrame.to_numpy()); which layout is used derives from the content
